@@ -424,6 +424,18 @@ def gen(rng, tier):
             continue
         yield {"kind": "scan", "src": "star_" + frac, "verts": [list(map(float, v)) for v in P + [P[0]]], "ny": ny, "nx": nx,
                "pad": [rng.randint(0, 30), rng.randint(0, 30), rng.randint(0, 20), rng.randint(0, 20)]}
+    # rectilinear outlines that are not rectangles (L, U, staircase, plus sign): every edge horizontal or vertical, a notch inside the
+    # bounding box
+    SHAPES = {"L": [(0, 0), (5, 0), (5, 2), (2, 2), (2, 6), (0, 6)], "U": [(0, 0), (7, 0), (7, 5), (5, 5), (5, 2), (2, 2), (2, 5), (0, 5)],
+              "stairs": [(0, 0), (6, 0), (6, 2), (4, 2), (4, 4), (2, 4), (2, 6), (0, 6)],
+              "plus": [(2, 0), (4, 0), (4, 2), (6, 2), (6, 4), (4, 4), (4, 6), (2, 6), (2, 4), (0, 4), (0, 2), (2, 2)]}
+    for k in range(8 if tier == "quick" else 160):
+        nm_ = ["L", "U", "stairs", "plus"][k % 4]
+        dx, dy = [(0, 0), (-2, 1), (3, -3), (1, 2)][(k // 4) % 4] if tier == "quick" else (rng.randint(-4, 4), rng.randint(-4, 4))
+        V = [(x + dx, y + dy) for x, y in SHAPES[nm_]]
+        if (k // 2) % 2 == 1:
+            V = [(y, x) for x, y in V][::-1]          # mirrored
+        yield {"kind": "scan", "src": "rectilinear_" + nm_, "verts": [list(map(float, v)) for v in V + [V[0]]], "ny": 10, "nx": 11, "pad": [5, 5, 2, 2]}
     # degenerate / malformed stream
     for _ in range(12 if tier == "quick" else 200):
         ny, nx = rng.randint(1, 8), rng.randint(1, 8)
